@@ -930,3 +930,132 @@ Proof.
   - rewrite open_table_ok by exact HwP. now rewrite Hcat.
   - intros rev st ops Hok Hfirst. rewrite <- Hcat. now apply table_iter_refines.
 Qed.
+
+(* ================= reading the list cursor ================= *)
+
+(* Seek (forward) = the first entry with key >= k, as List.find *)
+Lemma find_idx_find {A} (p : A -> bool) l :
+  (if (find_idx p l <? length l)%nat then nth_error l (find_idx p l) else None) = find p l.
+Proof.
+  induction l as [|x l IH]; cbn [find_idx find length]; [reflexivity|].
+  destruct (p x); [reflexivity|]. rewrite <- IH.
+  change (S (find_idx p l) <? S (length l))%nat with (find_idx p l <? length l)%nat.
+  destruct (find_idx p l <? length l)%nat; reflexivity.
+Qed.
+
+Lemma cur_seek_fwd_find es cur k :
+  cur_obs es (cur_step false es cur (ISeek k)) = find (ge_key k) es.
+Proof.
+  cbn [cur_step]. rewrite <- find_idx_find.
+  destruct (find_idx (ge_key k) es <? length es)%nat; reflexivity.
+Qed.
+
+(* Seek (reversed) = the last entry with key <= k, when "key > k" is monotone along the list *)
+Definition mono_true {A} (q : A -> bool) (l : list A) : Prop :=
+  forall a y b, l = a ++ y :: b -> q y = true -> forall z, In z b -> q z = true.
+
+Lemma find_rev_last {A} (q : A -> bool) : forall l, mono_true q l ->
+  find (fun e => negb (q e)) (rev l) = match find_idx q l with O => None | S r => nth_error l r end.
+Proof.
+  induction l as [|x l IH] using rev_ind; intros Hm; [reflexivity|].
+  rewrite rev_app_distr. cbn [rev app find].
+  assert (Hm': mono_true q l).
+  { intros a y b Hl Hy z Hz. apply (Hm a y (b ++ [x])); [rewrite Hl, <- app_assoc; reflexivity|exact Hy|].
+    apply in_or_app. now left. }
+  destruct (q x) eqn:Ex; cbn [negb].
+  - rewrite (IH Hm'). pose proof (find_idx_le q l) as Hle.
+    destruct (Nat.eq_dec (find_idx q l) (length l)) as [Heq|Hne].
+    + rewrite find_idx_app_skip by (apply find_idx_full; exact Heq). cbn [find_idx]. rewrite Ex, Nat.add_0_r, Heq.
+      destruct (length l) as [|n] eqn:El; [reflexivity|]. rewrite nth_error_app1 by lia. reflexivity.
+    + rewrite find_idx_app_in by lia. destruct (find_idx q l) as [|r] eqn:Er; [reflexivity|].
+      rewrite nth_error_app1 by lia. reflexivity.
+  - (* x is the last entry and q x = false: every earlier entry has q = false as well *)
+    assert (Hall: forall y, In y l -> q y = false).
+    { intros y Hy. destruct (q y) eqn:Ey; [|reflexivity]. apply in_split in Hy as (a & b & ->).
+      rewrite <- app_assoc in Hm. cbn [app] in Hm.
+      rewrite (Hm a y (b ++ [x]) eq_refl Ey x) in Ex; [discriminate|]. apply in_or_app. right. now left. }
+    rewrite find_idx_app_skip by exact Hall. cbn [find_idx]. rewrite Ex.
+    replace (length l + 1)%nat with (S (length l)) by lia.
+    rewrite nth_error_app2 by lia. now rewrite Nat.sub_diag.
+Qed.
+
+Lemma sorted_gt_mono es k : sorted_kv es -> (8 <= length k)%nat ->
+  Forall (fun e : kv => (8 <= length (fst e))%nat) es -> mono_true (gt_key k) es.
+Proof.
+  intros Hs Hk H8 a y b -> Hy z Hz.
+  apply sorted_app in Hs as (_ & Hs & _). cbn [app] in Hs.
+  change (y :: b) with ([y] ++ b) in Hs. apply sorted_app in Hs as (_ & _ & Hlt).
+  specialize (Hlt y z (or_introl eq_refl) Hz).
+  rewrite Forall_forall in H8. pose proof (H8 z ltac:(apply in_or_app; right; now right)) as Hz8.
+  unfold gt_key in *. destruct (ck_total _ k Hz8 Hk) as (c & Hc). rewrite Hc.
+  destruct (compare_keys (fst y) k) as [[]|] eqn:Ey; try discriminate.
+  apply ck_antisym in Ey. cbn in Ey.
+  assert (Hkz: klt k (fst z)) by (eapply klt_trans; eassumption).
+  apply ck_antisym in Hkz. cbn in Hkz. rewrite Hkz in Hc. now injection Hc as <-.
+Qed.
+
+Lemma cur_seek_rev_find es cur k : sorted_kv es -> (8 <= length k)%nat ->
+  Forall (fun e : kv => (8 <= length (fst e))%nat) es ->
+  cur_obs es (cur_step true es cur (ISeek k)) = find (fun e => negb (gt_key k e)) (rev es).
+Proof.
+  intros Hs Hk H8. rewrite (find_rev_last (gt_key k) es (sorted_gt_mono es k Hs Hk H8)).
+  cbn [cur_step]. destruct (find_idx (gt_key k) es); reflexivity.
+Qed.
+
+(* a full scan: Rewind then Next until exhausted returns the list (reversed: the reversed list) *)
+Lemma cur_scan_fwd es : forall k g, (g + S k = length es)%nat ->
+  cur_run false es (Some g) (repeat INext (S k)) = map Some (skipn (S g) es) ++ [None].
+Proof.
+  induction k as [|k IH]; intros g Hg.
+  - cbn [repeat cur_run cur_step].
+    assert (E: (S g <? length es)%nat = false) by (apply Nat.ltb_ge; lia). rewrite E.
+    rewrite skipn_all2 by lia. reflexivity.
+  - change (repeat INext (S (S k))) with (INext :: repeat INext (S k)). cbn [cur_run].
+    assert (Hs: cur_step false es (Some g) INext = Some (S g)).
+    { cbn [cur_step]. assert (E: (S g <? length es)%nat = true) by (apply Nat.ltb_lt; lia). now rewrite E. }
+    rewrite Hs, IH by lia. cbn [cur_obs].
+    rewrite (skipn_cons_nth es (S g) dkv) by lia. cbn [map app].
+    now rewrite (nth_error_nth' es dkv) by lia.
+Qed.
+
+Theorem cur_full_scan_fwd es : es <> [] ->
+  cur_run false es None (IRewind :: repeat INext (length es)) = map Some es ++ [None].
+Proof.
+  intros Hne. destruct es as [|e es'] eqn:E; [congruence|]. rewrite <- E in *.
+  assert (Hl: length es = S (length es')) by (rewrite E; reflexivity).
+  cbn [cur_run cur_step]. rewrite Hl. cbn [Nat.eqb]. rewrite <- Hl.
+  rewrite Hl at 1. rewrite (cur_scan_fwd es (length es') 0) by lia.
+  rewrite E. reflexivity.
+Qed.
+
+Lemma firstn_S_nth {A} (l : list A) g d : (g < length l)%nat -> firstn (S g) l = firstn g l ++ [nth g l d].
+Proof.
+  revert g; induction l as [|x l IH]; intros g Hg; cbn in Hg; [lia|].
+  destruct g as [|g]; [reflexivity|]. rewrite firstn_cons. cbn [nth]. rewrite IH by lia. reflexivity.
+Qed.
+
+Lemma cur_scan_rev es : forall g, (g < length es)%nat ->
+  cur_run true es (Some g) (repeat INext (S g)) = map Some (rev (firstn g es)) ++ [None].
+Proof.
+  induction g as [|g IH]; intros Hg; [reflexivity|].
+  change (repeat INext (S (S g))) with (INext :: repeat INext (S g)). cbn [cur_run].
+  assert (Hs: cur_step true es (Some (S g)) INext = Some g) by reflexivity.
+  rewrite Hs, IH by lia. cbn [cur_obs].
+  rewrite (firstn_S_nth es g dkv) by lia.
+  rewrite rev_app_distr. cbn [rev app map]. now rewrite (nth_error_nth' es dkv) by lia.
+Qed.
+
+Theorem cur_full_scan_rev es : es <> [] ->
+  cur_run true es None (IRewind :: repeat INext (length es)) = map Some (rev es) ++ [None].
+Proof.
+  intros Hne. destruct es as [|e es'] eqn:E; [congruence|]. rewrite <- E in *.
+  assert (Hl: length es = S (length es')) by (rewrite E; reflexivity).
+  cbn [cur_run]. assert (Hs: cur_step true es None IRewind = Some (length es')).
+  { cbn [cur_step]. rewrite Hl. cbn [Nat.eqb]. f_equal. lia. }
+  rewrite Hs. rewrite Hl. rewrite (cur_scan_rev es (length es')) by lia.
+  assert (Hes: es = firstn (length es') es ++ [nth (length es') es dkv]).
+  { rewrite <- firstn_S_nth by lia. rewrite <- Hl. symmetry. apply firstn_all. }
+  assert (Hrev: rev es = nth (length es') es dkv :: rev (firstn (length es') es)).
+  { rewrite Hes at 1. rewrite rev_app_distr. reflexivity. }
+  rewrite Hrev. cbn [cur_obs map app]. now rewrite (nth_error_nth' es dkv) by lia.
+Qed.
